@@ -219,4 +219,57 @@ func (*Scanner).aliasParameter [C13, C03]
   ensures result.Literal == stringOf(subslice(s.src, s.start, s.cur))
   loop 0 invariant J(s) && s.cur >= old(s.cur) && s.start == old(s.start)
   loop 0 decreases len(s.src) - s.cur
+
+spec firstRune(s *Scanner) int := utf8.runeA(arr(s.src), off(s.src) + s.start)
+
+// one token: blanks are skipped, the token starts at the first non-blank and is a non-empty piece of the source
+// (or EOF at the end); its literal is the source text between start and cur; its range gives the line/column
+// (in code points) of start and cur; its kind follows the class of its first character.
+func (*Scanner).NextToken [C13, C03]
+  safe
+  requires J(s) && P(s)
+  modifies scanner.Scanner.cur, scanner.Scanner.column, scanner.Scanner.line, scanner.Scanner.indent, scanner.Scanner.shouldIndent,
+           scanner.Scanner.shouldCapitalize, scanner.Scanner.start, scanner.Scanner.startLine, scanner.Scanner.startColumn, parser.parser.errored
+  ensures J(s)
+  ensures P(s)
+  ensures old(s.cur) <= s.start && allBlank(s, old(s.cur), s.start)
+  ensures result.Type != token.EOF ==> s.cur > s.start
+  ensures result.Type == token.EOF <==> s.start >= len(s.src)
+  ensures result.Type == token.EOF ==> s.cur == s.start
+  ensures result.Type != token.ILLEGAL ==> result.Literal == stringOf(subslice(s.src, s.start, s.cur))
+  ensures result.Range.Start.Line == lineAt(s, s.start) && result.Range.Start.Column == colAt(s, s.start)
+  ensures result.Range.End.Line == s.line && result.Range.End.Column == s.column
+  // kind by first character
+  ensures s.start < len(s.src) && alphaRune(firstRune(s)) ==>
+            result.Type == (token.kw(result.Literal) != token.IDENTIFIER ? token.kw(result.Literal) : token.kw(strings.ToLower(result.Literal)))
+  ensures s.start < len(s.src) && digitRune(firstRune(s)) ==> result.Type == token.INT || result.Type == token.FLOAT
+  ensures s.start < len(s.src) && firstRune(s) == 34 ==> result.Type == token.STRING || result.Type == token.ILLEGAL
+  ensures s.start < len(s.src) && firstRune(s) == 39 ==> result.Type == token.CHAR || result.Type == token.ILLEGAL
+  ensures s.start < len(s.src) && firstRune(s) == 91 ==> result.Type == token.COMMENT
+  ensures s.start < len(s.src) && firstRune(s) == 45 ==> result.Type == token.NEGATE
+  ensures s.start < len(s.src) && firstRune(s) == 46 ==> result.Type == token.DOT || result.Type == token.ELIPSIS
+  ensures s.start < len(s.src) && firstRune(s) == 44 ==> result.Type == token.COMMA
+  ensures s.start < len(s.src) && firstRune(s) == 58 ==> result.Type == token.COLON
+  ensures s.start < len(s.src) && firstRune(s) == 40 ==> result.Type == token.LPAREN
+  ensures s.start < len(s.src) && firstRune(s) == 41 ==> result.Type == token.RPAREN
+  loop 0 invariant J(s) && P(s) && s.cur > s.start && s.start == at(LT, s.start) && s.startLine == at(LT, s.startLine) && s.startColumn == at(LT, s.startColumn)
+  loop 0 decreases len(s.src) - s.cur
+  at LT before call atEnd
+
+// the whole stream: tokens in order, exactly one EOF and it is the last
+func (*Scanner).ScanAll [C13, C03]
+  safe
+  requires J(s) && P(s)
+  ensures len(result) >= 1 && result[len(result) - 1].Type == token.EOF
+  ensures forall i int :: 0 <= i && i < len(result) - 1 ==> result[i].Type != token.EOF
+  loop 0 invariant J(s) && P(s) && (forall i int :: 0 <= i && i < len(tokens) ==> tokens[i].Type != token.EOF)
+  loop 0 decreases len(s.src) - s.cur + (tok.Type == token.EOF ? 0 : 1)
+
+// a scanner starts at offset 0, line 1, column 1, and only on well-formed UTF-8
+func New [C13, C03]
+  returns scan, err
+  ensures err == nil ==> scan != nil && scan.cur == 0 && scan.start == 0 && scan.line == 1 && scan.column == 1
+  ensures err == nil && src != nil ==> scan.src == src && utf8.validA(arr(src), off(src), off(src) + len(src))
+  // invalid UTF-8 is refused with an error
+  ensures src != nil && !utf8.validA(arr(src), off(src), off(src) + len(src)) ==> err != nil
 @*/
